@@ -79,8 +79,27 @@ def _s4(day):
     return Z.make_zdir(files, "c13b"), day, ["db", "create", "-f"]
 
 
+def _s5(day):
+    """Changes that need no write-back: a new page whose notes carry ZIDs, a
+    deleted page, a page edited only in its header."""
+    files = {
+        "a.zo": "# A #ta\n\n- 240101#A1 stays\n",
+        "b.zo": "# B\n\n- 240102#B1 on a page that will be deleted\n",
+        "c.zo": "# C #old\n\n- 240103#C1 header will change\n",
+    }
+    zd = Z.make_zdir(files, "c13b")
+    r = Z.db_create(zd, day)
+    if not Z.cli_ok(r):
+        raise H.HarnessError("S5 setup failed " + r.err[-300:])
+    (zd / "b.zo").unlink()
+    (zd / "c.zo").write_text("# C #new\n\n- 240103#C1 header will change\n")
+    (zd / "n.zo").write_text("# N\n\n- 240104#N1 new page, note already has a zid\n")
+    return zd, day, ["db", "reindex"]
+
+
 SCENARIOS = {"S1-create-new-notes": _s1, "S2-reindex-stamp-new-note-new-page": _s2,
-             "S3-reindex-shared-tag": _s3, "S4-create-f-whitelist": _s4}
+             "S3-reindex-shared-tag": _s3, "S4-create-f-whitelist": _s4,
+             "S5-reindex-without-write-back": _s5}
 
 
 # ---------------------------------------------------------------------------
@@ -346,10 +365,11 @@ def run(ctx: F.Ctx):
         _SC.clear()
     meta = {
         "rule": (
-            "4 scenarios (db create with three ZID-less notes on two pages; db reindex a day later "
+            "5 scenarios (db create with three ZID-less notes on two pages; db reindex a day later "
             "with an edited note, a new note, a new page and an untouched page; db reindex with two "
             "changed pages sharing a tag whose other holder dropped it; db create -f with a broken "
-            "page). Effects intercepted in program order: Path.write_text, Path.open(w), touch, "
+            "page; db reindex after changes that need no write-back: a new page whose notes carry "
+            "ZIDs, a deleted page, a header-only edit). Effects intercepted in program order: Path.write_text, Path.open(w), touch, "
             "unlink, rename, Session.commit. For every k in 1..N the command is killed (os._exit) "
             "immediately before effect k, then re-run to completion and judged: exits cleanly, raw "
             "index == recompiled files, every note has a ZID, no ZID on two notes, the multiset of "
